@@ -177,7 +177,11 @@ OVERRIDES = {
     "style_color": {"style_color": "red"},
     "style_opacity": {"style_opacity": 0.3},
     "style_dict": {"style": {"color": "blue"}},
+    # None is a meaningful override: unit rotation / "not set"
+    "orientation_None": {"orientation": None},
+    "excitation_None": {},  # filled per class: polarization / current / moment = None
 }
+EXCITATION_ATTR = {"Cuboid": "polarization", "Sphere": "polarization", "Tetrahedron": "polarization", "Circle": "current", "Dipole": "moment"}
 
 
 def apply_op(state, op, ctx):
@@ -192,6 +196,9 @@ def apply_op(state, op, ctx):
         kw = {}
         for name in op["overrides"]:
             kw.update(_copy.deepcopy(OVERRIDES[name]))
+        exc_attr = EXCITATION_ATTR.get(type(state.orig).__name__)
+        if "excitation_None" in op["overrides"] and exc_attr:
+            kw[exc_attr] = None
         r = build.call(state.orig.copy, **kw)
         if not r.ok:
             return [Violation({"sub": "copy_raised", "overrides": sorted(op["overrides"]), **exc_sig(r.exc)},
@@ -224,7 +231,10 @@ def apply_op(state, op, ctx):
         # equality apart from overrides / label
         over_keys = set()
         for name in op["overrides"]:
-            over_keys |= {"position", "orientation", "orientation_single"} if name.startswith(("position", "orientation")) else {"style"}
+            if name == "excitation_None":
+                over_keys |= {"polarization", "magnetization", "current", "moment"}
+            else:
+                over_keys |= {"position", "orientation", "orientation_single"} if name.startswith(("position", "orientation")) else {"style"}
         cs = _snap_side(cp)
         if len(cs) == len(before):
             for i, (a, b) in enumerate(zip(before, cs)):
@@ -240,6 +250,21 @@ def apply_op(state, op, ctx):
                                           "style_state": state.init["style_state"]},
                                          f"copy differs from original in {d} ({a['type']}, member {i})"))
                     break
+        # a None override acts like the assignment of None on a plain copy
+        none_attrs = [a_ for a_, v_ in kw.items() if v_ is None]
+        if none_attrs:
+            r2 = build.call(state.orig.copy)
+            if r2.ok:
+                for a_, v_ in kw.items():
+                    if not a_.startswith("style"):
+                        setattr(r2.value, a_, _copy.deepcopy(v_))
+                s1, s2 = _strip(_snap_side(cp)[0]), _strip(_snap_side(r2.value)[0])
+                s1.pop("style", None)
+                s2.pop("style", None)
+                d = build.diff_snap(s1, s2)
+                if d:
+                    out.append(Violation({"sub": "override_not_applied", "which": "None:" + ",".join(sorted(none_attrs)), "what": d},
+                                         f"copy({', '.join(a_ + '=None' for a_ in none_attrs)}) differs in {d} from a plain copy followed by the assignment of None"))
         # overrides visible on the copy
         if "position" in op["overrides"] and not np.allclose(np.asarray(cp.position), (0.7, -0.2, 1.1)):
             out.append(Violation({"sub": "override_not_applied", "which": "position"}, f"copy.position={cp.position}"))
@@ -250,7 +275,7 @@ def apply_op(state, op, ctx):
         if "style_dict" in op["overrides"] and cp.style.color != "blue" and "style_color" not in op["overrides"]:
             out.append(Violation({"sub": "override_not_applied", "which": "style_dict"}, f"copy.style.color={cp.style.color!r}"))
         # equal field (when the pose was not overridden)
-        if not (over_keys & {"position"}):
+        if not (over_keys & {"position"}) and "excitation_None" not in op["overrides"]:
             fo, fc = _field_probe(state.orig), _field_probe(cp)
             if isinstance(fo, np.ndarray) and isinstance(fc, np.ndarray):
                 if fo.shape != fc.shape or not np.array_equal(fo, fc, equal_nan=True):
@@ -403,6 +428,8 @@ class CopyMachine(machine.VMachine):
         over = [n for n in names if data.draw(st.integers(0, 5)) == 0]
         if "position" in over and "position_path" in over:
             over.remove("position_path")
+        if "orientation" in over and "orientation_None" in over:
+            over.remove("orientation")
         self.do({"op": "copy", "overrides": over})
 
     def _ready(self):
